@@ -135,6 +135,11 @@ func c17Check(env *core.Env, cc core.Case) core.Verdict {
 			program = c.join(lines)
 		case "generate-include":
 			tree["regex-assembly/include/big.ra"] = c.join(lines)
+			if c.Others%2 == 0 {
+				// the include file is a link to a shared list kept outside the assembly directory
+				tree["shared/big-list.ra"] = c.join(lines)
+				tree["regex-assembly/include/big.ra"] = sut.SymlinkPrefix + "../../shared/big-list.ra"
+			}
 			program = "zulu26\n##!> include big\n"
 			accept = append(accept, "zulu26")
 		case "generate-include-pairs":
@@ -268,6 +273,78 @@ func c17Check(env *core.Env, cc core.Case) core.Verdict {
 			}
 		}
 		v.Counts["entries_checked"] = len(accept)
+		return v
+
+	case "generate-except-big-exclude":
+		// an exclude file of 5 MiB whose last line names an entry of the list
+		var x strings.Builder
+		x.WriteString("bravo2\n")
+		for i := 0; x.Len() < 5<<20; i++ {
+			fmt.Fprintf(&x, "notinthelist%09d\n", i)
+		}
+		x.WriteString("delta4\n")
+		tree := sut.Tree{"regex-assembly/toolchain.yaml": crsToolchainYAML, "regex-assembly/include/words.ra": "alpha1\nbravo2\ncharlie3\ndelta4\necho5\n", "regex-assembly/exclude/huge.ra": x.String(),
+			"regex-assembly/932100.ra": "zulu26\n##!> include-except words huge\n"}
+		if err := tree.Write(root); err != nil {
+			return core.Incon("cannot write tree: %v", err)
+		}
+		before := sut.Snap(root)
+		r := sut.Run(sut.Cmd{Bin: env.Bin, Args: []string{"-d", root, "regex", "generate", "932100"}, Dir: root, Timeout: 120 * 1e9})
+		if done, vv := loud(r, before); done {
+			return vv
+		}
+		re, err := regexp.Compile("^(?:" + string(r.Stdout) + ")$")
+		if err != nil {
+			return core.Viol("invalid-output:"+c.Cmd, "generate printed something that is not a regex: %v", err)
+		}
+		for _, w := range []string{"alpha1", "charlie3", "echo5", "zulu26"} {
+			if !re.MatchString(w) {
+				return core.Viol("entry-dropped:"+c.Cmd, "with an exclude file of 5 MiB the generated regex does not accept %s", w)
+			}
+		}
+		for _, w := range []string{"bravo2", "delta4"} {
+			if re.MatchString(w) {
+				return core.Viol("exclusion-lost:"+c.Cmd, "with an exclude file of 5 MiB the generated regex accepts %s, which the %s line of that file excludes", w, map[string]string{"bravo2": "first", "delta4": "last"}[w])
+			}
+		}
+		v.Nontrivial = true
+		return v
+
+	case "copyright-fsize", "renumber-fsize", "format-fsize", "update-fsize":
+		// the process may not write a file of more than 100000 bytes, and the file it has to rewrite is twice as long:
+		// the command fails, or the file is complete
+		filler := strings.Repeat("# a comment line of the rules file that only fills it up to the size that is needed here\n", 2300)
+		tree := sut.Tree{"regex-assembly/toolchain.yaml": crsToolchainYAML, "crs-setup.conf.example": "# OWASP CRS ver.4.0.0\n",
+			"rules/REQUEST-932-APPLICATION-ATTACK-RCE.conf": "# OWASP CRS ver.4.0.0\nSecRule ARGS \"@rx old\" \\\n    \"id:932100,\\\n    phase:2,\\\n    ver:'OWASP_CRS/4.0.0'\"\n" + filler + "# OWASP CRS ver.4.0.0 last line\n",
+			"regex-assembly/932100.ra": "alpha1\nbravo2\n", "regex-assembly/include/bigfmt.ra": "   first\n" + strings.Repeat("     indented entry of the big include file\n", 4500) + "last\n",
+			"tests/regression/tests/REQUEST-932-X/932100.yaml": "---\ntests:\n" + strings.Repeat("  - test_id: 7\n    desc: a test case that fills the file\n    stages: []\n", 3000)}
+		if err := tree.Write(root); err != nil {
+			return core.Incon("cannot write tree: %v", err)
+		}
+		var args []string
+		target := ""
+		switch c.Cmd {
+		case "copyright-fsize":
+			args, target = []string{"chore", "update-copyright", "-v", "4.9.9", "-y", "2031"}, "rules/REQUEST-932-APPLICATION-ATTACK-RCE.conf"
+		case "renumber-fsize":
+			args, target = []string{"util", "renumber-tests", "932100"}, "tests/regression/tests/REQUEST-932-X/932100.yaml"
+		case "format-fsize":
+			args, target = []string{"regex", "format", "bigfmt"}, "regex-assembly/include/bigfmt.ra"
+		default:
+			args, target = []string{"regex", "update", "932100"}, "rules/REQUEST-932-APPLICATION-ATTACK-RCE.conf"
+		}
+		r := sut.Run(sut.Cmd{Bin: env.Bin, Args: append([]string{"-d", root}, args...), Dir: root, FSize: 100000, Timeout: 120 * 1e9})
+		if r.Class() == sut.ClassTimeout {
+			return core.Incon("watchdog hit, not judged: %s", describe(r))
+		}
+		v.Nontrivial = true
+		if r.Exit != 0 {
+			return v // a reported failure (the file may be damaged: a half-written file is what a failed write leaves)
+		}
+		got, _ := sut.Read(root, target)
+		if len(got) < len(tree[target])-2000 {
+			return core.Viol("silently-truncated:"+c.Cmd, "%v under a file size limit of 100000 bytes: exit status 0, and %s has %d bytes where it had %d", args, target, len(got), len(tree[target]))
+		}
 		return v
 
 	case "format-check":
@@ -572,6 +649,9 @@ func init() {
 						}
 					}
 				}
+			}
+			for _, cmd := range []string{"generate-except-big-exclude", "copyright-fsize", "renumber-fsize", "format-fsize", "update-fsize"} {
+				cs = append(cs, &c17Case{Cmd: cmd, Len: 5 << 20, Pos: "last"})
 			}
 			// a file that cannot be read to its end is the other way of losing lines without noticing
 			for _, sc := range ioCases("C17") {
